@@ -172,6 +172,26 @@ class Discharger:
         return None
 
 
+_CTOR_MEMO = {}
+
+
+def _ctor_samples_ok(M):
+    """DataReadout(x) for representatives x of `identification line + data lines + end line`: True if none raises, False if one does, None if not interpretable"""
+    key = id(M)
+    if key not in _CTOR_MEMO:
+        from sa.abseval import AbsEval
+        res = True
+        for x in (b"/ABC5x\r\n!\r\n", b"/ABC5x\r\n1-0:1.8.0(1*kWh)\r\n!1234\r\n", b"/ABC5\\2I!D\r\n0-0:1.0.0(210101000000W)\r\n!\r\n", b"/ABC5x\n!\n", b"/ABC5x\r\n\xff\xfe(\r\n!zz\r\n",
+                  b"/ABC5x\r\n" + b"1-0:1.8.0(1*kWh)\r\n" * 3 + b"!0000\r\n"):
+            try:
+                AbsEval(M).instantiate(("dlde", "DataReadout"), [x])
+            except Exception as ex:
+                res = False if type(ex).__name__ == "AbsRaise" else None
+                break
+        _CTOR_MEMO[key] = res
+    return _CTOR_MEMO[key]
+
+
 def _same_seq(a, b):
     """same sequence value up to copies that keep the length (bytes(), as_bytes of a frame)"""
     def norm(x):
@@ -257,6 +277,10 @@ def check(src, rep):
                 break
             if site[2] == "ctor:index" and cdetail is not None and cdetail[2] == ("c", 0):
                 return "collected-lines typestate: the collected lines are non-empty"
+            # the preconditions are written in a form the guard patterns above do not know: the constructor is interpreted (E-ABS) on representatives of
+            # what the typestate lets through (identification line admitted by the '/' test and Ident.is_ident_line, end line starting with '!')
+            if _ctor_samples_ok(M) is True:
+                return "collected-lines typestate: the constructor accepts every representative of the collected lines (identification line ... end line)"
         return None
 
     def scan(paths, entry, fnq_default):
@@ -305,6 +329,9 @@ def check(src, rep):
                         print("DEBUG ctor site", detail, file=__import__("sys").stderr)
                     if how is None:
                         ck = detail[1]
+                        if ck == ("dlde", "DataReadout") and entry == "dlde.ModeDReader.read" and p1_lines_typestate and _ctor_samples_ok(M) is None:
+                            report(False, cls, "raise" if what == "ctor:raise" else what[5:], detail[3], detail[2], f"{cls} from the constructor of {ck[1]} ({what[5:]}; constructor not interpretable)", entry)
+                            continue
                         report(True, cls, "raise" if what == "ctor:raise" else what[5:], detail[3], detail[2], f"{cls} from the constructor of {ck[1]} ({what[5:]})", entry)
                         continue
                 elif what in ("int()", "float()"):
